@@ -9,10 +9,10 @@ import (
 	"context"
 	"flag"
 	"fmt"
-	"strings"
-	"sync/atomic"
 	"os"
+	"strings"
 	"sync"
+	"sync/atomic"
 	"time"
 
 	"github.com/apex/log"
@@ -185,12 +185,24 @@ func main() {
 		defer wg.Done()
 		ret = retentionVsRunning()
 	}()
+	var retq, adm map[string]interface{}
+	wg.Add(2)
+	go func() {
+		defer wg.Done()
+		retq = retentionVsQueue()
+	}()
+	go func() {
+		defer wg.Done()
+		adm = removedPipelineAdmission()
+	}()
 	wg.Wait()
 	for _, r := range results {
 		hutil.JSONLine(w, r)
 	}
 	hutil.JSONLine(w, shut)
 	hutil.JSONLine(w, ret)
+	hutil.JSONLine(w, retq)
+	hutil.JSONLine(w, adm)
 }
 
 // retentionVsRunning (C12, C01, in real time): a job runs longer than its pipeline's retention_period and a save happens meanwhile.
